@@ -712,7 +712,59 @@ func udPad(sp *quic.QUICSpec, n int) {
 }
 
 var udDerivedKinds = []string{"suppress", "randomize", "tp-edit", "frames-nil", "frames-fixed", "frames-random", "frames-multi",
-	"flight-fixed", "flight-random", "plan", "token", "pn", "hello-size", "cid", "udp-min", "mix"}
+	"flight-fixed", "flight-random", "plan", "token", "pn", "hello-size", "cid", "udp-min", "mix", "invalid"}
+
+var udInvalidNext int // cycles through the kinds of invalid spec
+
+// udTokenStore: an explicit InitialPacketSpec.TokenStore handing out one fixed token.
+type udTokenStore struct{ tok []byte }
+
+func (t *udTokenStore) Pop(string) *quic.ClientToken { return quic.NewClientToken(t.tok) }
+func (t *udTokenStore) Put(string, *quic.ClientToken) {}
+
+// udSpecDist counts which QUICSpec / InitialPacketSpec fields and builder kinds a spec uses.
+func udSpecDist(dist map[string]int, sp *quic.QUICSpec) {
+	ips := &sp.InitialPacketSpec
+	dist[fmt.Sprintf("field SrcConnIDLength=%d", ips.SrcConnIDLength)]++
+	dist[fmt.Sprintf("field DestConnIDLength=%d", ips.DestConnIDLength)]++
+	dist[fmt.Sprintf("field InitPacketNumberLength=%d", ips.InitPacketNumberLength)]++
+	dist[fmt.Sprintf("field InitPacketNumberLengths n=%d", len(ips.InitPacketNumberLengths))]++
+	switch {
+	case ips.InitPacketNumber <= 2:
+		dist[fmt.Sprintf("field InitPacketNumber=%d", ips.InitPacketNumber)]++
+	default:
+		dist["field InitPacketNumber>2"]++
+	}
+	if ips.TokenStore != nil {
+		dist["field TokenStore set"]++
+	}
+	if ips.ClientTokenLength > 0 {
+		dist["field ClientTokenLength>0"]++
+	}
+	if len(ips.ClientTokenPrefix) > 0 {
+		dist["field ClientTokenPrefix set"]++
+	}
+	dist[fmt.Sprintf("field FrameBuilder=%T", ips.FrameBuilder)]++
+	if qf, ok := ips.FrameBuilder.(quic.QUICFrames); ok {
+		dist[fmt.Sprintf("field FrameBuilder=QUICFrames len=%d", len(qf))]++
+	}
+	dist[fmt.Sprintf("field InitialPackets n=%d", len(ips.InitialPackets))]++
+	for _, pl := range ips.InitialPackets {
+		if pl.CryptoLength != 0 {
+			dist["field InitialPackets.CryptoLength set"]++
+		}
+		if pl.PacketSize != 0 {
+			dist["field InitialPackets.PacketSize set"]++
+		}
+	}
+	dist[fmt.Sprintf("spec UDPDatagramMinSize=%d", sp.UDPDatagramMinSize)]++
+	if sp.RandomizeTransportParameters {
+		dist["spec RandomizeTransportParameters"]++
+	}
+	if len(sp.SuppressTransportParameters) > 0 {
+		dist["spec SuppressTransportParameters set"]++
+	}
+}
 
 func udRandomFrames(r *u.Rng, withLength bool) quic.QUICRandomFrames {
 	f := quic.QUICRandomFrames{}
@@ -893,6 +945,12 @@ func udDerive(r *u.Rng, base, kind string) (*udDerived, error) {
 			}
 			note("plans=%+v", plans)
 		case "token":
+			if r.Chance(1, 3) { // an explicit TokenStore takes priority over length / prefix
+				tok := r.Bytes(r.Range(1, 70))
+				ips.TokenStore = &udTokenStore{tok: tok}
+				note("TokenStore{%d bytes}", len(tok))
+				break
+			}
 			ips.ClientTokenLength = r.Range(0, 90)
 			if r.Bool() {
 				ips.ClientTokenPrefix = r.Bytes(r.Range(1, 8))
@@ -925,6 +983,32 @@ func udDerive(r *u.Rng, base, kind string) (*udDerived, error) {
 			ips.SrcConnIDLength = []int{0, 3, 4, 8, 20}[r.Intn(5)] // not 1 or 2: the generator draws issued IDs at random, short ones collide
 			ips.DestConnIDLength = []int{8, 9, 12, 16, 20}[r.Intn(5)]
 			note("scidlen=%d dcidlen=%d", ips.SrcConnIDLength, ips.DestConnIDLength)
+		case "invalid":
+			// a spec InitialPacketSpec.validate has to refuse before anything is sent
+			udInvalidNext++
+			switch udInvalidNext % 7 {
+			case 0:
+				ips.DestConnIDLength = r.Range(1, 7)
+				note("invalid: DestConnIDLength=%d", ips.DestConnIDLength)
+			case 1:
+				ips.SrcConnIDLength = r.Range(21, 40)
+				note("invalid: SrcConnIDLength=%d", ips.SrcConnIDLength)
+			case 2:
+				ips.InitPacketNumber, ips.InitPacketNumberLength, ips.InitPacketNumberLengths = uint64(r.Range(256, 60000)), 1, nil
+				note("invalid: InitPacketNumber=%d in 1 byte", ips.InitPacketNumber)
+			case 3:
+				ips.InitPacketNumberLengths = []quic.PacketNumberLen{1, quic.PacketNumberLen(r.Range(5, 9))}
+				note("invalid: InitPacketNumberLengths=%v", ips.InitPacketNumberLengths)
+			case 4:
+				ips.InitialPackets = []quic.InitialPacketPlan{{PacketSize: r.Range(1, 1199)}}
+				note("invalid: PacketSize=%d", ips.InitialPackets[0].PacketSize)
+			case 5:
+				sp.UDPDatagramMinSize = r.Range(1, 1199)
+				note("invalid: UDPDatagramMinSize=%d", sp.UDPDatagramMinSize)
+			default:
+				ips.InitialPackets = []quic.InitialPacketPlan{{CryptoLength: -r.Range(1, 500)}}
+				note("invalid: CryptoLength=%d", ips.InitialPackets[0].CryptoLength)
+			}
 		case "udp-min":
 			sp.UDPDatagramMinSize = []int{1200, 1220, 1252}[r.Intn(3)]
 			note("udpmin=%d", sp.UDPDatagramMinSize)
@@ -1299,6 +1383,33 @@ func udWireCover(wirePayload, hello []byte, cov []bool) string {
 
 // scripted = the minimal witness of udial/retx/noncontiguous: three Initial datagrams of 300 CRYPTO
 // bytes, the middle one acknowledged, the outer two lost together.
+// udAsPacked: the payload on the wire is exactly what the packer selected -- the CRYPTO frames
+// registered for loss recovery in that order, a lone PING when there are none -- i.e. the
+// spec's frame builder was not consulted (or reproduced the very same frames).
+func udAsPacked(pkt *quic.VerifRetxPacket) bool {
+	if pkt == nil {
+		return true
+	}
+	fr, err := udFrames(pkt.Wire)
+	if err != nil {
+		return false
+	}
+	var cr []quic.VerifRange
+	pings := 0
+	for _, f := range fr {
+		switch f.Type {
+		case 0x06:
+			cr = append(cr, quic.VerifRange{Off: int64(f.Off), Len: int64(len(f.Data))})
+		case 0x01:
+			pings++
+		}
+	}
+	if len(pkt.Frames) == 0 {
+		return len(cr) == 0 && pings == 1
+	}
+	return udRangesEq(cr, pkt.Frames) && pings == 0
+}
+
 func udRetx(o *udOut, r *u.Rng, scripted bool) {
 	base := parrotNames[r.Intn(len(parrotNames))]
 	if scripted {
@@ -1311,10 +1422,11 @@ func udRetx(o *udOut, r *u.Rng, scripted bool) {
 	ips := &sp.InitialPacketSpec
 	n := []int{280, 520, 1100, 1700, 2400, 3300, 4200}[r.Intn(7)] + r.Intn(60)
 	desc := "builder=parrot"
-	builderKind := r.Intn(6)
+	builderKind := r.Intn(7)
 	if scripted {
 		n, builderKind = 900, 1
 	}
+	layout := "None" // a non-empty QUICFrames layout, for the model
 	switch builderKind {
 	case 0:
 		ips.FrameBuilder = nil
@@ -1338,6 +1450,15 @@ func udRetx(o *udOut, r *u.Rng, scripted bool) {
 		ips.FrameBuilder = f
 		ips.InitialPackets = nil
 		desc = fmt.Sprintf("builder=QUICFlightFrames(%d datagrams)", len(f.Datagrams))
+	case 4: // a fixed layout that cuts its slice at an offset
+		k := r.Range(1, 60)
+		ips.FrameBuilder = quic.QUICFrames{quic.QUICFrameCrypto{Offset: k, Length: 0}, quic.QUICFramePing{}, quic.QUICFrameCrypto{Offset: 0, Length: k}}
+		layout = fmt.Sprintf("(Some [LCrypto %d 0; LOther; LCrypto 0 %d])", k, k)
+		desc = fmt.Sprintf("builder=QUICFrames{crypto[%d:] ping crypto[:%d]}", k, k)
+	case 5: // a fixed layout with a leading PING and trailing padding (fits every slice)
+		ips.FrameBuilder = quic.QUICFrames{quic.QUICFramePing{}, quic.QUICFrameCrypto{Offset: 0, Length: 0}, quic.QUICFramePadding{Length: 9}}
+		layout = "(Some [LOther; LCrypto 0 0; LOther])"
+		desc = "builder=QUICFrames{ping crypto padding}"
 	}
 	if _, isFlight := ips.FrameBuilder.(quic.QUICFlightFrameBuilder); !isFlight && (scripted || r.Chance(2, 3)) {
 		cl := []int{100, 150, 200, 300, 500, 999}[r.Intn(6)]
@@ -1349,6 +1470,12 @@ func udRetx(o *udOut, r *u.Rng, scripted bool) {
 			c := *rf
 			c.Length, c.MinPADDING, c.MaxPADDING = 0, 0, 0
 			ips.FrameBuilder = &c
+		}
+		if builderKind == 4 && r.Bool() { // boundary: the slice is one byte shorter / exactly / one byte longer than the layout's cut
+			k := cl + r.Range(-1, 1)
+			ips.FrameBuilder = quic.QUICFrames{quic.QUICFrameCrypto{Offset: k, Length: 0}, quic.QUICFramePing{}, quic.QUICFrameCrypto{Offset: 0, Length: k}}
+			layout = fmt.Sprintf("(Some [LCrypto %d 0; LOther; LCrypto 0 %d])", k, k)
+			desc = fmt.Sprintf("builder=QUICFrames{crypto[%d:] ping crypto[:%d]}", k, k)
 		}
 		desc += fmt.Sprintf(" CryptoLength=%d PacketSize=%d", cl, ips.InitialPackets[0].PacketSize)
 	}
@@ -1366,9 +1493,13 @@ func udRetx(o *udOut, r *u.Rng, scripted bool) {
 	sent := make([]bool, n) // bytes that were on the wire at least once
 	var pns []int64
 	for i := 0; i < 64; i++ {
-		pkt, err, pan := rx.Pack(false)
-		if pan != nil || err != nil {
-			o.fail("udial/retx/flight", fmt.Sprintf("packing the first flight failed: err=%v panic=%v", err, pan), detail(""))
+		pkt, err, pan := rx.Pack(false, false)
+		if pan != nil {
+			o.fail("udial/retx/panic", fmt.Sprintf("packing datagram %d of the first flight panics: %v", i, pan), detail(strings.Join(hist, "; ")))
+			return
+		}
+		if err != nil {
+			o.fail("udial/retx/flight", fmt.Sprintf("packing the first flight failed: %v", err), detail(strings.Join(hist, "; ")))
 			return
 		}
 		if pkt == nil {
@@ -1414,6 +1545,12 @@ func udRetx(o *udOut, r *u.Rng, scripted bool) {
 	for round := 0; round < rounds && !dead; round++ {
 		outst := rx.Outstanding()
 		sort.Slice(outst, func(i, j int) bool { return outst[i] < outst[j] })
+		if !scripted && r.Bool() { // losses are not detected in packet-number order
+			for i := len(outst) - 1; i > 0; i-- {
+				j := r.Intn(i + 1)
+				outst[i], outst[j] = outst[j], outst[i]
+			}
+		}
 		for i, pn := range outst {
 			choice := r.Intn(4)
 			if scripted {
@@ -1434,7 +1571,7 @@ func udRetx(o *udOut, r *u.Rng, scripted bool) {
 		for i := 0; i < 64; i++ {
 			before := rx.Queue()
 			probe := r.Chance(1, 3) || scripted // (the plan's CryptoLength also caps a regular packet; a PTO probe is not capped)
-			pkt, err, pan := rx.Pack(probe)
+			pkt, err, pan := rx.Pack(probe, false)
 			after := rx.Queue()
 			popped, ok := udPopped(before, after)
 			if !ok {
@@ -1472,10 +1609,66 @@ func udRetx(o *udOut, r *u.Rng, scripted bool) {
 				}
 				hist = append(hist, fmt.Sprintf("resent pn%d %v", pkt.PN, pkt.Frames))
 			}
-			ops = append(ops, u.App("RPack", u.B(probe), udRanges(before), udRanges(popped), udRanges(after), res))
+			ops = append(ops, u.App("RPack", u.B(probe), "false", udRanges(before), udRanges(popped), udRanges(after), u.B(udAsPacked(pkt)), res))
 			if dead || (pkt == nil && err == nil) {
 				break
 			}
+		}
+	}
+	if !dead {
+		// a PTO probe with nothing to retransmit: a PING, no CRYPTO data
+		before := rx.Queue()
+		pkt, err, pan := rx.Pack(true, true)
+		res := "RNone"
+		switch {
+		case pan != nil:
+			res = u.App("RErr", "3")
+			o.fail("udial/retx/panic", fmt.Sprintf("an Initial PTO probe that carries only a PING panics: %v", pan), detail(strings.Join(hist, "; ")))
+			dead = true
+		case err != nil:
+			res = u.App("RErr", "2")
+			o.fail("udial/retx/error", "an Initial PTO probe that carries only a PING fails: "+err.Error(), detail(strings.Join(hist, "; ")))
+			dead = true
+		case pkt != nil:
+			res = u.App("RPkt", u.Z(pkt.PN), udRanges(pkt.Frames))
+			if fr, err := udFrames(pkt.Wire); err != nil {
+				o.fail("udial/retx/wire", "PING probe: payload does not parse: "+err.Error(), detail(""))
+			} else {
+				ackEliciting := false
+				for _, f := range fr {
+					if f.Type == 0x01 || f.Type == 0x06 {
+						ackEliciting = true
+					}
+				}
+				if !ackEliciting {
+					o.fail("udial/retx/wire", "PING probe: the packet on the wire is not ack-eliciting", detail(""))
+				}
+			}
+		}
+		ops = append(ops, u.App("RPack", "true", "true", udRanges(before), "[]", udRanges(rx.Queue()), u.B(udAsPacked(pkt)), res))
+	}
+	if !dead && len(rx.Outstanding()) > 0 {
+		// Handshake keys arrive while an Initial packet still has to be retransmitted: the
+		// datagram must stay within the maximum packet size and every packet in it must be
+		// where a receiver looks for it (no datagram padding between coalesced packets)
+		outst := rx.Outstanding()
+		sort.Slice(outst, func(i, j int) bool { return outst[i] < outst[j] })
+		rx.Lose(outst[0])
+		rx.GiveHandshakeKeys(300)
+		pkt, err, pan := rx.Pack(false, false)
+		switch {
+		case pan != nil:
+			o.fail("udial/retx/coalesced", fmt.Sprintf("packing an Initial retransmission together with Handshake data panics: %v", pan), detail(strings.Join(hist, "; ")))
+		case err != nil:
+			o.fail("udial/retx/coalesced", "packing an Initial retransmission together with Handshake data fails: "+err.Error(), detail(strings.Join(hist, "; ")))
+		case pkt != nil:
+			// (a lone packet that a builder's own PING / PADDING frames push over the size is C10's subject)
+			if limit := max(1252, sp.UDPDatagramMinSize); pkt.Coalesced > 1 && pkt.Size > limit {
+				o.fail("udial/retx/coalesced", fmt.Sprintf("a datagram of %d bytes for a maximum packet size of 1252 (UDPDatagramMinSize %d): a Handshake packet was coalesced behind a spec-driven Initial packet whose padding the size computation does not know", pkt.Size, sp.UDPDatagramMinSize), detail(fmt.Sprintf("last packet pn%d frames=%v coalesced=%d gap=%d; ", pkt.PN, pkt.Frames, pkt.Coalesced, pkt.Gap)+strings.Join(hist, "; ")))
+			} else if pkt.Coalesced > 1 && pkt.Gap > 0 {
+				o.fail("udial/retx/coalesced", fmt.Sprintf("%d packets in one datagram with %d bytes of datagram padding in front of the last one: the receiver cannot find it", pkt.Coalesced, pkt.Gap), detail(strings.Join(hist, "; ")))
+			}
+			o.dist[fmt.Sprintf("retx coalesced=%d", pkt.Coalesced)]++
 		}
 	}
 	if !dead {
@@ -1489,7 +1682,7 @@ func udRetx(o *udOut, r *u.Rng, scripted bool) {
 	if len(ops) > 0 {
 		nt = 1
 	}
-	fmt.Fprintf(o.w, "CASE %d %s\n", nt, u.App("Retx", u.Z(int64(n)), u.B(planned), u.List(flight), u.List(ops)))
+	fmt.Fprintf(o.w, "CASE %d %s\n", nt, u.App("Retx", u.Z(int64(n)), u.B(planned), layout, u.List(flight), u.List(ops)))
 	_ = pns
 }
 
